@@ -470,7 +470,8 @@ class AddressCell(collections.namedtuple(
 
     @property
     def abs_coordinate(self):
-        return f'${self.column}${self.row}'
+        # the column or the row is missing from the corner of A:A or 1:1
+        return ''.join(f'${part}' for part in (self.column, self.row) if part)
 
     def address_at_offset(self, row_inc=0, col_inc=0):
         """ Construct an `AddressCell` offset from the address
